@@ -7,15 +7,15 @@ use unic_langid_impl::{LanguageIdentifier, LanguageIdentifierError};
 
 /// the real shared parser entry (`#[doc(hidden)] pub`) on K pre-split subtags
 pub fn parse_tokens<const K: usize>(toks: &[Tok; K], allow_ext: bool) -> Result<LanguageIdentifier, LanguageIdentifierError> {
-    let arr: [&[u8]; K] = core::array::from_fn(|i| toks[i].bytes());
-    let mut it = arr.into_iter().peekable();
+    let arr = slices(toks);
+    let mut it = arr.iter().copied().peekable();
     LanguageIdentifier::try_from_iter(&mut it, allow_ext)
 }
 
 /// as `parse_tokens`, also reporting how many tokens were left unconsumed
 pub fn parse_tokens_rest<const K: usize>(toks: &[Tok; K], allow_ext: bool) -> (Result<LanguageIdentifier, LanguageIdentifierError>, usize) {
-    let arr: [&[u8]; K] = core::array::from_fn(|i| toks[i].bytes());
-    let mut it = arr.into_iter().peekable();
+    let arr = slices(toks);
+    let mut it = arr.iter().copied().peekable();
     let r = LanguageIdentifier::try_from_iter(&mut it, allow_ext);
     let mut left = 0;
     while it.next().is_some() {
@@ -75,7 +75,26 @@ pub fn note_toks<const K: usize>(toks: &[Tok; K]) {
 pub fn note_toks<const K: usize>(_toks: &[Tok; K]) {}
 
 pub fn toks9<const K: usize>() -> [Tok; K] {
-    core::array::from_fn(|_| crate::sym::tok9())
+    let mut a = [Tok::lit(b""); K];
+    let mut i = 0;
+    while i < K {
+        a[i] = crate::sym::tok9();
+        i += 1;
+    }
+    a
+}
+
+/// the subtags as slices.  Plain array assignment on purpose: `core::array::from_fn` and
+/// `array::IntoIter` go through `MaybeUninit`, behind which CBMC no longer sees the (concrete)
+/// slice lengths of length-profiled frames, so every length test in the parsers turned symbolic.
+pub fn slices<const K: usize>(toks: &[Tok; K]) -> [&[u8]; K] {
+    let mut arr: [&[u8]; K] = [&[]; K];
+    let mut i = 0;
+    while i < K {
+        arr[i] = toks[i].bytes();
+        i += 1;
+    }
+    arr
 }
 
 use unic_locale_impl::extensions::{ExtensionsMap, PrivateExtensionList, TransformExtensionList, UnicodeExtensionList};
@@ -87,15 +106,143 @@ use unic_locale_impl::Locale;
 /// through the cfg-guarded forwarding hook).  The three-line glue of `parse_locale`
 /// itself is covered by the byte-level harnesses.
 pub fn parse_locale_tokens<const K: usize>(toks: &[Tok; K]) -> Result<Locale, LocParserError> {
-    let arr: [&[u8]; K] = core::array::from_fn(|i| toks[i].bytes());
-    let mut it = arr.into_iter().peekable();
+    let arr = slices(toks);
+    let mut it = arr.iter().copied().peekable();
     let id = LanguageIdentifier::try_from_iter(&mut it, true).map_err(|_| LocParserError::InvalidLanguage)?;
     let extensions = ExtensionsMap::verif_try_from_iter(&mut it)?;
     Ok(Locale { id, extensions })
 }
 
 pub fn parse_extmap_tokens<const K: usize>(toks: &[Tok; K]) -> Result<ExtensionsMap, LocParserError> {
-    let arr: [&[u8]; K] = core::array::from_fn(|i| toks[i].bytes());
-    let mut it = arr.into_iter().peekable();
+    let arr = slices(toks);
+    let mut it = arr.iter().copied().peekable();
     ExtensionsMap::verif_try_from_iter(&mut it)
+}
+
+pub fn parse_ulist_tokens<const K: usize>(toks: &[Tok; K]) -> (Result<UnicodeExtensionList, LocParserError>, usize) {
+    let arr = slices(toks);
+    let mut it = arr.iter().copied().peekable();
+    let r = UnicodeExtensionList::verif_try_from_iter(&mut it);
+    let mut left = 0;
+    while it.next().is_some() {
+        left += 1;
+    }
+    (r, left)
+}
+pub fn parse_tlist_tokens<const K: usize>(toks: &[Tok; K]) -> (Result<TransformExtensionList, LocParserError>, usize) {
+    let arr = slices(toks);
+    let mut it = arr.iter().copied().peekable();
+    let r = TransformExtensionList::verif_try_from_iter(&mut it);
+    let mut left = 0;
+    while it.next().is_some() {
+        left += 1;
+    }
+    (r, left)
+}
+pub fn parse_plist_tokens<const K: usize>(toks: &[Tok; K]) -> Result<PrivateExtensionList, LocParserError> {
+    let arr = slices(toks);
+    let mut it = arr.iter().copied();
+    PrivateExtensionList::verif_try_from_iter(&mut it)
+}
+
+// ---- real extension values vs reference models -------------------------------------------
+use crate::xspec::{KV, PModel, TModel, UModel};
+
+fn iter_is<'a>(mut it: impl ExactSizeIterator<Item = &'a str>, want: &[Txt], n: usize) -> bool {
+    if it.len() != n {
+        return false;
+    }
+    let mut i = 0;
+    while i < want.len() {
+        if i < n {
+            match it.next() {
+                Some(s) => {
+                    if !spec::same_text(s.as_bytes(), &want[i]) {
+                        return false;
+                    }
+                }
+                None => return false,
+            }
+        }
+        i += 1;
+    }
+    // (ExactSizeIterator::len() == n was checked above; not calling next() again keeps the
+    // exhausted-iterator path of the B-tree navigation out of the query)
+    true
+}
+
+pub fn ulist_is(u: &UnicodeExtensionList, m: &UModel) -> bool {
+    if !iter_is(u.attributes(), &m.attrs, m.nattrs) {
+        return false;
+    }
+    if m.kw.nkeys == 0 {
+        if u.keyword_keys().len() != 0 {
+            return false;
+        }
+    } else if !iter_is(u.keyword_keys(), &m.kw.keys, m.kw.nkeys) {
+        return false;
+    }
+    let mut i = 0;
+    while i < crate::xspec::KMAX {
+        if i < m.kw.nkeys {
+            match u.keyword(&m.kw.keys[i][..2]) {
+                Ok(it) => {
+                    if !iter_is(it, &m.kw.vals[i], m.kw.nvals[i]) {
+                        return false;
+                    }
+                }
+                Err(_) => return false,
+            }
+        }
+        i += 1;
+    }
+    u.is_empty() == (m.nattrs == 0 && m.kw.nkeys == 0)
+}
+
+pub fn tlist_is(t: &TransformExtensionList, m: &TModel) -> bool {
+    match (t.tlang(), &m.tlang) {
+        (None, None) => {}
+        (Some(l), Some(ml)) => {
+            if !langid_is(l, ml) {
+                return false;
+            }
+        }
+        _ => return false,
+    }
+    if m.fields.nkeys == 0 {
+        if t.tfield_keys().len() != 0 {
+            return false;
+        }
+    } else if !iter_is(t.tfield_keys(), &m.fields.keys, m.fields.nkeys) {
+        return false;
+    }
+    let mut i = 0;
+    while i < crate::xspec::KMAX {
+        if i < m.fields.nkeys {
+            match t.tfield(&m.fields.keys[i][..2]) {
+                Ok(it) => {
+                    if !iter_is(it, &m.fields.vals[i], m.fields.nvals[i]) {
+                        return false;
+                    }
+                }
+                Err(_) => return false,
+            }
+        }
+        i += 1;
+    }
+    t.is_empty() == (m.tlang.is_none() && m.fields.nkeys == 0)
+}
+
+pub fn plist_is(p: &PrivateExtensionList, m: &PModel) -> bool {
+    iter_is(p.tags(), &m.tags, m.ntags) && p.is_empty() == (m.ntags == 0)
+}
+
+pub fn toks_len<const K: usize>(lens: [usize; K]) -> [Tok; K] {
+    let mut a = [Tok::lit(b""); K];
+    let mut i = 0;
+    while i < K {
+        a[i] = crate::sym::tok_len(lens[i]);
+        i += 1;
+    }
+    a
 }
